@@ -24,7 +24,7 @@ CHECKS = {
          "DESIGN.md#c15"),
  "C01": ("E", "exploration",
          "bounded-exhaustive enumeration of generator outputs against an independent reference model of the condition rules",
-         "Every generator output of four stated layers (single condition: 52 opcode atoms x all argument lists of length <=2/<=3 over 27 letters x terminator; all 64 message modes with type-correct and singly-corrupted commitments; 17 integer atoms through every integer-typed condition and CREATE_COIN memo shapes; spend A with every ordered pair of ~107 interaction letters alone or with a child (listed after or before it) / sibling / double-spend carrying one letter; every list of 1-2 (thorough 3) spends over boundary amounts x RESERVE_FEE x 0-3 outputs with totals crossing 2^64; a coin whose parent id equals its puzzle hash messaging itself under every pair of commitment modes; structural defects at all 5 list positions; the 1024-announcement and 6000-spend caps; thorough adds every ordered triple over one representative letter per condition kind) is run through the real parse_spends with both visitors and the flag subsets of {NO_UNKNOWN_CONDS, STRICT_ARGS_COUNT, COST_CONDITIONS} and through the reference model written from the rule table (DESIGN.md Appendix A); verdict, canonical summary (incl. eligibility flags under the mempool visitor) and condition cost must be equal. 14M (quick) / ~90M (thorough) evaluations, exhaustive inside the stated alphabets.",
+         "Every generator output of four stated layers (single condition: 52 opcode atoms x all argument lists of length <=2/<=3 over 27 letters x terminator; all 64 message modes with type-correct and singly-corrupted commitments; 17 integer atoms through every integer-typed condition and CREATE_COIN memo shapes; spend A with every ordered pair of ~107 interaction letters alone or with a child (listed after or before it) / sibling / double-spend carrying one letter; every list of 1-2 (thorough 3) spends over boundary amounts x RESERVE_FEE x 0-3 outputs with totals crossing 2^64; every ordered triple of locks inside each after/before family; a coin whose parent id equals its puzzle hash messaging itself under every pair of commitment modes; structural defects at all 5 list positions; the 1024-announcement and 6000-spend caps; thorough adds every ordered triple over one representative letter per condition kind) is run through the real parse_spends with both visitors and the flag subsets of {NO_UNKNOWN_CONDS, STRICT_ARGS_COUNT, COST_CONDITIONS} and through the reference model written from the rule table (DESIGN.md Appendix A); verdict, canonical summary (incl. eligibility flags under the mempool visitor) and condition cost must be equal. 14M (quick) / ~90M (thorough) evaluations, exhaustive inside the stated alphabets.",
          "trusts: the reference model mc::refcond (reviewable against Appendix A); valid public keys = the harness's own three keys; signatures are not validated here (C05); conditions interacting in groups of more than 3, messages >1025 bytes and most of the 65536 two-byte opcodes are outside the alphabet",
          "DESIGN.md#c01"),
  "C03": ("E", "exploration",
@@ -44,7 +44,7 @@ CHECKS = {
          "DESIGN.md#c02"),
  "C06": ("E", "exploration",
          "bounded-exhaustive metamorphic enumeration: strict-vs-lenient flag subsets and all permutations of spends and conditions, both sides being the real validator",
-         "For every bundle of the stated alphabet (spend A with every multiset of <=2 of ~125 interaction and strict-sensitive letters, two-spend bundles with a child/sibling carrying one letter each, the ephemeral child with every multiset of two lock/birth/ASSERT_EPHEMERAL letters; thorough adds triples over the aggregating letters) and 4 fork flag sets x all 7 non-empty subsets of {NO_UNKNOWN_CONDS, STRICT_ARGS_COUNT, LIMIT_SPENDS}: accepted under the stricter set implies accepted under the fork flags alone with identical summary and cost; and for every permutation of conditions within each spend x every permutation of the spends under 4 flag sets: identical verdict, cost and order-insensitive summary (FF flag masked). LIMIT_SPENDS at 5999/6000/6001 spends.",
+         "For every bundle of the stated alphabet (spend A with every multiset of <=2 of ~125 interaction and strict-sensitive letters, two-spend bundles with a child/sibling carrying one letter each, the ephemeral child with every multiset of two lock/birth/ASSERT_EPHEMERAL letters, every multiset of three locks inside each after/before family; thorough adds triples over the aggregating letters) and 4 fork flag sets x all 7 non-empty subsets of {NO_UNKNOWN_CONDS, STRICT_ARGS_COUNT, LIMIT_SPENDS}: accepted under the stricter set implies accepted under the fork flags alone with identical summary and cost; and for every permutation of conditions within each spend x every permutation of the spends under 4 flag sets: identical verdict, cost and order-insensitive summary (FF flag masked). LIMIT_SPENDS at 5999/6000/6001 spends.",
          "trusts: nothing but the comparison code (no reference model: both sides are parse_spends); conditions that interact only in groups of 3+ outside the thorough triples are not covered",
          "DESIGN.md#c06"),
  "C16": ("E", "exploration",
@@ -54,7 +54,7 @@ CHECKS = {
          "DESIGN.md#c16"),
  "C17": ("H", "model_checking",
          "bounded-exhaustive input enumeration plus explicit-state BFS to fixpoint over the real TreeCache with exact-state dedup through hook H2",
-         "Every tree-hash routine (tree_hash, tree_hash_cached, tree_hash_from_bytes on plain and back-reference serialisations, TreeHasher, curry_tree_hash/CurriedProgram, and the puzzle hashes / coin ids reported by the five block consumers) returns the definitional SHA-256 tree hash for every atom in both internal representations over a 211-leaf alphabet, every small-integer atom below 2^20 (quick) / 2^26 (thorough), every DAG of <=4/5 pairs over 3-4 leaf kinds, 10^5-deep and 10^5-long lists, 2^20-leaf DAGs, every currying of <=4 arguments over 8/12 values, and typed values (12 primitive integer types and BigInt over 44 boundary values, byte strings, tuples) through ToTreeHash and through ToClvm<Allocator>. For the shared memo cache the complete state graph is explored: every history of visit_tree / tree_hash_cached calls of any length on every DAG of <=3 (quick) / <=4 (thorough) pairs and on a fixed 9-pair DAG with pairs allocated between calls and at most 1 (quick) / 2 (thorough) direct TreeCache::insert(pair or atom, its hash) priming calls (BFS to fixpoint), every transition's hash and every cache entry checked against the reference; larger DAGs by bounded sequences.",
+         "Every tree-hash routine (tree_hash, tree_hash_cached, tree_hash_from_bytes on plain and back-reference serialisations, TreeHasher, curry_tree_hash/CurriedProgram, and the puzzle hashes / coin ids reported by the five block consumers) returns the definitional SHA-256 tree hash for every atom in both internal representations over a 211-leaf alphabet, every small-integer atom below 2^20 (quick) / 2^26 (thorough), every DAG of <=4/5 pairs over 3-4 leaf kinds, 10^5-deep and 10^5-long lists, 2^20-leaf DAGs, every currying of <=4 arguments over 8/12 values, the hash-from-hashes routine inside fast_forward_singleton on 96 constructed singleton spends, and typed values (12 primitive integer types and BigInt over 44 boundary values, byte strings, tuples) through ToTreeHash and through ToClvm<Allocator>. For the shared memo cache the complete state graph is explored: every history of visit_tree / tree_hash_cached calls of any length on every DAG of <=3 (quick) / <=4 (thorough) pairs and on a fixed 9-pair DAG with pairs allocated between calls and at most 1 (quick) / 2 (thorough) direct TreeCache::insert(pair or atom, its hash) priming calls (BFS to fixpoint), every transition's hash and every cache entry checked against the reference; larger DAGs by bounded sequences.",
          "trusts: sha2 crate and mc::sx reference; clvmr 0.17.7 allocator and serialisers (leaf bytes read back, compressed forms re-parsed before blaming /repo); hook H2 TreeCache::verif_state as exact state key; one append-only allocator per cache",
          "DESIGN.md#c17"),
  "C07": ("E", "exploration",
@@ -89,7 +89,7 @@ CHECKS = {
          "DESIGN.md#c10"),
  "C05": ("E", "exploration",
          "bounded-exhaustive enumeration of signed base cases and single-point tamperings through every verification path, with the harness's own rule table and signer as oracle",
-         "Every base case (8 AGG_SIG opcodes x 23 coin amounts at every minimal-encoding length boundary x message lengths, plus a fixed second pair) is signed by the harness over its own table of what each opcode appends (parent / puzzle hash / minimal amount / coin id + the opcode's domain constant) and must be accepted by parse_spends (block and mempool visitor; no, cold, warm and foreign-warm BlsCache), run_block_generator2 and validate_clvm_and_signature; the (key, message) pairs reported by run_spendbundle and the text from make_aggsig_final_message must equal the table. Then 17 single-point tamperings per case (other signature, identity signature, message byte, key swap, amount neighbours, parent byte, puzzle hash, own / foreign domain constant altered in the constants, pair dropped / duplicated, infinity and off-curve key, neighbouring opcode) must be rejected on every path exactly when they change the signed multiset, and accepted otherwise; AGG_SIG_UNSAFE messages ending in any of the 7 constants are rejected although correctly signed (6 message shapes each); bundles without any AGG_SIG condition are accepted with the identity signature only (3 other signatures, every path); pair lists containing the infinity key get the cache-free verdict from BlsCache::aggregate_verify cold and warm. Thorough adds more message lengths and all 64 ordered opcode pairs over two spends.",
+         "Every base case (8 AGG_SIG opcodes x 23 coin amounts at every minimal-encoding length boundary x message lengths, plus a fixed second pair) is signed by the harness over its own table of what each opcode appends (parent / puzzle hash / minimal amount / coin id + the opcode's domain constant) and must be accepted by parse_spends (block and mempool visitor; no, cold, warm and foreign-warm BlsCache), run_block_generator2 and validate_clvm_and_signature; the (key, message) pairs reported by run_spendbundle and the text from make_aggsig_final_message must equal the table. Then 17 single-point tamperings per case (other signature, identity signature, message byte, key swap, amount neighbours, parent byte, puzzle hash, own / foreign domain constant altered in the constants, pair dropped / duplicated, infinity and off-curve key, neighbouring opcode) must be rejected on every path exactly when they change the signed multiset, and accepted otherwise; AGG_SIG_UNSAFE messages ending in any of the 7 constants are rejected although correctly signed (6 message shapes each, also with DONT_VALIDATE_SIGNATURE); bundles without any AGG_SIG condition are accepted with the identity signature only (3 other signatures, every path); pair lists containing the infinity key get the cache-free verdict from BlsCache::aggregate_verify cold and warm. Thorough adds more message lengths and all 64 ordered opcode pairs over two spends.",
          "trusts: chia_bls::sign/aggregate as the signer (C15/C16), harness codec and SHA-256; forgeries that are not single-point edits are a cryptographic claim outside this check",
          "DESIGN.md#c05"),
  "C12": ("E", "exploration",
@@ -99,7 +99,7 @@ CHECKS = {
          "DESIGN.md#c12"),
  "C19": ("E", "exploration",
          "bounded-exhaustive input enumeration with an independent 'genuine singleton spend' predicate, differential re-execution of the rewritten spend, and fingerprint-group consistency",
-         "Fast-forward: for every constructed singleton spend (launcher ids x inner-puzzle styles x 10-13 condition sets x 3-5 amounts x lineages, plus the 2 recorded spends) and every rebase target, fast_forward_singleton succeeds exactly when the harness's own predicate says the spend is genuine; the rewritten solution changes only lineage parent, parent amount and amount, re-runs with exactly the original conditions apart from the two self-assertions (which name the new coin), is accepted by mempool validation on the new coin and creates the same coins; each of 34 single-relation corruptions is refused (87k cases quick, 1.7M thorough). Dedup: for every condition list of <=3 letters over a 67/79-letter alphabet (hint shapes incl. a one-byte hint equal to a following REMARK's image, atom-boundary splits, all signature and message conditions, time locks) in 9 coin/helper scenes (165k lists quick, 2.6M thorough), eligible spends of the same coin with equal fingerprints have identical parsed conditions, and eligibility implies no signature/message condition and created >= consumed.",
+         "Fast-forward: for every constructed singleton spend (launcher ids x inner-puzzle styles x 10-13 condition sets x 3-5 amounts x lineages, plus the 2 recorded spends) and every rebase target, fast_forward_singleton succeeds exactly when the harness's own predicate says the spend is genuine; the rewritten solution changes only lineage parent, parent amount and amount, re-runs with exactly the original conditions apart from the two self-assertions (which name the new coin), is accepted by mempool validation on the new coin and creates the same coins; each of 36 single-relation corruptions is refused (87k cases quick, 1.7M thorough). Dedup: for every condition list of <=3 letters over a 67/79-letter alphabet (hint shapes incl. a one-byte hint equal to a following REMARK's image, atom-boundary splits, all signature and message conditions, time locks) in 9 coin/helper scenes (165k lists quick, 2.6M thorough), eligible spends of the same coin with equal fingerprints have identical parsed conditions, and eligibility implies no signature/message condition and created >= consumed.",
          "trusts: mc::sx codec/tree hash, the harness's own curry/uncurry and solution decoder, chia-puzzles 0.20.1 module bytes (own tree hash checked against the published hash), clvmr run_program, letter metadata assigned by construction; the Python wrapper in wheel/ is not exercised",
          "DESIGN.md#c19"),
  "C20": ("E", "exploration",
